@@ -52,6 +52,7 @@ def _all(cfg, scaling, ckind):
     return res
 
 
+@scat.guarded
 def run_case(case):
     cfg, L = case["cfg"], case["L"]
     base = _all(cfg, case["scaling"], case["ckind"])
